@@ -243,8 +243,13 @@ func ruleIdxUnits(c *Ctx) {
 							}
 						}
 					case *ast.Ident:
-						if d, ok := defs[info.Uses[x]]; ok && d.pos == 0 && isNodeIndexType(info.TypeOf(x)) {
-							walk(d.rhs, underAdd)
+						if isNodeIndexType(info.TypeOf(x)) {
+							// the latest definition before this use (locals such as nodeIndex are re-assigned)
+							if rhs, idx := lastDefBefore(info, fd, info.Uses[x], pos); rhs != nil && idx == 0 {
+								if _, isMapLookup := ast.Unparen(rhs).(*ast.IndexExpr); !isMapLookup {
+									walk(rhs, underAdd)
+								}
+							}
 						}
 					}
 				}
